@@ -1,3 +1,7 @@
-#![allow(dead_code)]
+#![allow(dead_code, unused_assignments)]
+#[cfg(kani)]
+mod bitset;
+#[cfg(kani)]
+mod iters;
 #[cfg(kani)]
 mod tensor;
